@@ -167,3 +167,15 @@ Qed.
 (* QField predicates *)
 Lemma q_areEqual_spec : forall a b, wf a -> wf b -> (q_areEqual a b = true <-> (toQ a == toQ b)%Q).
 Proof. intros a b Wa Wb. exact (proj1 (proj2 (proj2 (operators_thm a b Wa Wb)))). Qed.
+
+Definition QField_predicates_stmt := forall a b, wf a -> wf b ->
+  (q_isZero a = true <-> (toQ a == 0)%Q) /\ (q_isOne a = true <-> (toQ a == 1)%Q) /\
+  (q_isMOne a = true <-> (toQ a == - (1))%Q) /\ (q_areEqual a b = true <-> (toQ a == toQ b)%Q).
+Lemma qfield_predicates_thm : QField_predicates_stmt.
+Proof.
+  intros a b Wa Wb.
+  assert (W0 : wf (0, 1)) by (split; cbn; lia). assert (W1 : wf (1, 1)) by (split; cbn; lia).
+  assert (Wm : wf (-1, 1)) by (split; cbn; lia).
+  split; [exact (q_areEqual_spec a (0, 1) Wa W0)|]. split; [exact (q_areEqual_spec a (1, 1) Wa W1)|].
+  split; [exact (q_areEqual_spec a (-1, 1) Wa Wm) | exact (q_areEqual_spec a b Wa Wb)].
+Qed.
